@@ -22,11 +22,25 @@ Search: the property itself on the real code with references computed here, neve
     tiny relative spread: the exact formula, the scaling law est(c x) = |c| est(x) (to a few ulp, since scaling by a
     power of two is exact in every floating-point step) and the shift law, each with a tolerance derived from the
     rounding of the statistic's own values - no absolute floor, so a hidden absolute or relative tolerance shows.
+Devices applied at random to every configuration (correspondence and search alike; the judge is the same model /
+formula, which only sees the logical content): the Jackknife object is replaced by its copy.copy / copy.deepcopy /
+pickle round trip before use (in sessions the copy carries on); the data array is a copy / deepcopy / pickle round trip,
+an ndarray subclass, a (writable or read-only) array over a memoryview / bytes buffer, a strided or negative-stride view,
+Fortran ordered; the statistic is handed over as function + kwargs, function + positional args, functools.partial,
+callable object or bound method; the call runs in a fresh working directory with np.seterr(all="warn") and other print
+options, after the caller's `random` / `np.random` were advanced; the call must leave `random`, `np.random`, cwd,
+np.geterr() and the print options as it found them.  Lists / tuples are not numpy arrays: the documented TypeError
+(or, should the code accept them, the value of the equivalent array) is asserted.  A few cases per run are repeated in
+child interpreters with different PYTHONHASHSEED and differently advanced generators: values must be bit-identical.
 """
+import copy
+import functools
 import json
 import math
 import os
+import pickle
 import random
+import shutil
 import subprocess
 import sys
 import tempfile
@@ -110,6 +124,55 @@ def stat(x, kind="mean", log=None, slow=0, fault=None, counter=None):
     return v
 
 
+class StatObj:
+    """the statistic as a callable object / through a bound method (picklable: module-level class)"""
+
+    def __init__(self, kind):
+        self.kind = kind
+
+    def __call__(self, x, **kw):
+        return stat(x, kind=self.kind, **kw)
+
+    def evaluate(self, x, **kw):
+        return stat(x, kind=self.kind, **kw)
+
+
+class TaggedArray(np.ndarray):
+    """a trivial ndarray subclass"""
+
+
+FN_FORMS = ["function", "args", "partial", "object", "method"]
+CLONES = ["copy", "deepcopy", "pickle"]
+
+
+def clone(o, form):
+    if form == "copy":
+        return copy.copy(o)
+    if form == "deepcopy":
+        return copy.deepcopy(o)
+    if form == "pickle":
+        return pickle.loads(pickle.dumps(o))
+    return o
+
+
+def call_form(form, kind, **kw):
+    """(function, positional args after num_cores, kwargs) handing the same statistic over in different ways"""
+    if form == "args":
+        return stat, (kind,), kw
+    if form == "partial":
+        return functools.partial(stat, kind=kind), (), kw
+    if form == "object":
+        return StatObj(kind), (), kw
+    if form == "method":
+        return StatObj(kind).evaluate, (), kw
+    return stat, (), dict(kw, kind=kind)
+
+
+def gen_dev(rng):
+    return dict(obj=rng.choice(["plain"] * 3 + CLONES), fn=rng.choice(["function"] * 2 + FN_FORMS),
+                data=rng.choice(["plain"] * 3 + CLONES), env=rng.random() < 0.3)
+
+
 def ref_stat(x, kind):
     return stat(np.array(x, copy=True), kind=("mean" if kind == "mutmean" else kind))
 
@@ -132,41 +195,59 @@ def check_draw_contract(draws, n, d):
 
 
 # ------------------------------------------------------------------ configurations
+LAYOUTS = ["c", "c", "f", "strided", "negstride", "subclass", "frombuffer", "frombuffer-ro"]
+
+
 class Cfg:
-    def __init__(self, base, layout, kind, frac, N, seed):
+    def __init__(self, base, layout, kind, frac, N, seed, dev=None):
         self.base = base  # C-contiguous float64/int64 array holding the logical data
-        self.layout = layout  # "c" | "f" | "strided"
+        self.layout = layout  # how the array object handed to the code is laid out / typed (see fresh)
         self.kind = kind
         self.frac = frac
         self.N = N
         self.seed = seed
         self.n = len(base)
         self.d = int(frac * self.n)
+        self.dev = dict(dev or {})  # devices: obj / fn / data / env (see gen_dev)
 
     def fresh(self):
-        """a new array object with the requested memory layout and the logical content of `base`"""
+        """a new array object with the requested memory layout / type and the logical content of `base`;
+        second value: an object whose bytes must not change either (memory next to a view, backing buffer)"""
         b = self.base
+        arr, guard = b.copy(), None
         if self.layout == "f" and b.ndim == 2:
-            return np.asfortranarray(b.copy()), None
-        if self.layout == "strided":
+            arr = np.asfortranarray(b.copy())
+        elif self.layout == "strided":
             big = np.zeros((2 * self.n,) + b.shape[1:], dtype=b.dtype)
             big[::2] = b
             big[1::2] = -77
-            return big[::2], big
-        return b.copy(), None
+            arr, guard = big[::2], big
+        elif self.layout == "negstride":
+            arr = b[::-1].copy()[::-1]
+        elif self.layout == "subclass":
+            arr = b.copy().view(TaggedArray)
+        elif self.layout == "frombuffer":
+            buf = bytearray(b.tobytes())
+            arr = np.frombuffer(memoryview(buf), dtype=b.dtype).reshape(b.shape)
+        elif self.layout == "frombuffer-ro":
+            arr = np.frombuffer(b.tobytes(), dtype=b.dtype).reshape(b.shape)
+        form = self.dev.get("data", "plain")
+        if form != "plain":
+            arr, guard = clone(arr, form), None
+        return arr, guard
 
     def canon(self):
         return (self.base.shape, str(self.base.dtype), self.base.tobytes(), self.layout, self.kind, self.frac, self.N,
-                self.seed)
+                self.seed, tuple(sorted(self.dev.items())))
 
     def as_json(self):
         return dict(data=self.base.tolist(), dtype=str(self.base.dtype), layout=self.layout, kind=self.kind,
-                    frac=self.frac, N=self.N, seed=self.seed, n=self.n, d=self.d)
+                    frac=self.frac, N=self.N, seed=self.seed, n=self.n, d=self.d, dev=self.dev)
 
     @staticmethod
     def from_json(j):
         return Cfg(np.array(j["data"], dtype=j.get("dtype", "float64")), j.get("layout", "c"), j["kind"],
-                   float(j["frac"]), int(j["N"]), int(j["seed"]))
+                   float(j["frac"]), int(j["N"]), int(j["seed"]), j.get("dev"))
 
 
 def gen_cfg(rng, want_d1=None, allow_mut=True, small=False, magnitude=False):
@@ -195,11 +276,13 @@ def gen_cfg(rng, want_d1=None, allow_mut=True, small=False, magnitude=False):
     base = np.array(vals, dtype=("int64" if style == "int" else "float64")).reshape(shape)
     if kind == "wmean":
         base[:, 1] = np.abs(base[:, 1]) + 0.5  # positive weights
-    layout = rng.choice(["c", "c", "f", "strided"])
+    layout = rng.choice(LAYOUTS)
+    if kind == "mutmean" and layout == "frombuffer-ro":
+        layout = "frombuffer"  # a statistic that writes into its argument cannot be given a read-only array
     seed = rng.choice([42, 0, rng.randint(-5, 5), rng.randint(0, 2 ** 31), rng.randint(-2 ** 40, 2 ** 40)])
     if magnitude and base.dtype == np.float64:
         base = rescale(rng, base, kind)
-    return Cfg(base, layout, kind, frac, N, seed)
+    return Cfg(base, layout, kind, frac, N, seed, gen_dev(rng))
 
 
 def rescale(rng, base, kind):
@@ -229,7 +312,7 @@ def gen_cfg_for_object(rng, frac, N, seed, avoid_n=None, lo=3, hi=60, allow_mut=
     base = np.concatenate([cfg.base + (0.25 * r if cfg.base.dtype == np.float64 else r) for r in range(reps)])[:n].copy()
     if cfg.kind == "wmean":
         base[:, 1] = np.abs(base[:, 1]) + 0.5
-    return Cfg(base, cfg.layout, cfg.kind, frac, N, seed)
+    return Cfg(base, cfg.layout, cfg.kind, frac, N, seed, cfg.dev)
 
 
 # ------------------------------------------------------------------ running the real code
@@ -241,20 +324,44 @@ def scramble_global(rng):
     np.random.seed(rng.getrandbits(32))
 
 
+def np_state_equal(a, b):
+    return a[0] == b[0] and np.array_equal(a[1], b[1]) and tuple(a[2:]) == tuple(b[2:])
+
+
 def run_real(cfg, cores, slow=0, obj=None, want_log=True):
+    """one call of the real compute_jackknife_estimates for `cfg`, with cfg's devices applied.  The returned dict
+    carries the object that served the call (`obj`: the copy, when the object was copied before use)."""
     from sparkx.Jackknife import Jackknife
-    arr, big = cfg.fresh()
-    big_before = None if big is None else big.copy()
+    arr, guard = cfg.fresh()
+    guard_before = None if guard is None else bytes(guard.tobytes())
     log = None
     if want_log:
         fd, log = tempfile.mkstemp(prefix="c15_", suffix=".log")
         os.close(fd)
+    dev = cfg.dev
+    tmpdir = None
+    saved = None
     try:
         j = obj if obj is not None else Jackknife(cfg.frac, cfg.N, cfg.seed)
+        j = clone(j, dev.get("obj", "plain"))
+        fn, args, kw = call_form(dev.get("fn", "function"), cfg.kind, log=log, slow=slow)
+        if dev.get("env"):
+            saved = (os.getcwd(), np.geterr(), np.get_printoptions())
+            tmpdir = tempfile.mkdtemp(prefix="c15_cwd_")
+            os.chdir(tmpdir)
+            np.seterr(all="warn")
+            np.set_printoptions(precision=3, suppress=True, linewidth=40)
+        before = (random.getstate(), np.random.get_state(), os.getcwd(), np.geterr(), np.get_printoptions())
         try:
-            r = j.compute_jackknife_estimates(arr, stat, cores, kind=cfg.kind, log=log, slow=slow)
+            r = j.compute_jackknife_estimates(arr, fn, cores, *args, **kw)
         except ValueError as e:
-            return dict(err="value", msg=str(e), after=np.array(arr, copy=True))
+            return dict(err="value", msg=str(e), after=np.array(arr, copy=True), obj=j)
+        finally:
+            after = (random.getstate(), np.random.get_state(), os.getcwd(), np.geterr(), np.get_printoptions())
+        env_problems = [name for name, same in (
+            ("random state", after[0] == before[0]), ("np.random state", np_state_equal(after[1], before[1])),
+            ("working directory", after[2] == before[2]), ("np.geterr()", after[3] == before[3]),
+            ("numpy print options", after[4] == before[4])) if not same]
         entries = []
         if log:
             me = os.getpid()
@@ -263,11 +370,18 @@ def run_real(cfg, cores, slow=0, obj=None, want_log=True):
                 if pid != me:
                     entries.append((t0, t1, pid, crc))
     finally:
+        if saved is not None:
+            os.chdir(saved[0])
+            np.seterr(**saved[1])
+            np.set_printoptions(**saved[2])
+        if tmpdir:
+            shutil.rmtree(tmpdir, ignore_errors=True)
         if log and os.path.exists(log):
             os.unlink(log)
-    res = dict(value=float(r), type_ok=isinstance(r, float), after=np.array(arr, copy=True), entries=sorted(entries))
-    if big is not None:
-        res["padding_ok"] = bool(np.array_equal(big[1::2], big_before[1::2]))
+    res = dict(value=float(r), type_ok=isinstance(r, float), after=np.array(arr, copy=True), entries=sorted(entries),
+               obj=j, env_problems=env_problems)
+    if guard is not None:
+        res["padding_ok"] = bytes(guard.tobytes()) == guard_before
     return res
 
 
